@@ -148,6 +148,36 @@ def st_synth(draw):
 
 
 @st.composite
+def st_shape(draw):
+    """a flat baseline followed by a rise that is NOT one of the contact models: saturating (tanh, 1-exp: relaxing
+    sample, detector saturation), square-root, linear, power law; approach only or with a mirrored retract"""
+    case = {"kind": "shape", "rise": draw(st.sampled_from(["tanh", "sqrt", "relax", "linear", "power"])),
+            # (long records matter: the smoothing windows of the estimators grow with the length)
+            "n": draw(st.one_of(st.integers(60, 400), st.integers(1000, 3000), st.integers(1200, 6000))),
+            "baseline": draw(st.floats(0.2, 0.8)), "steep": draw(st.floats(1.0, 9.0)),
+            "retract": draw(st.sampled_from([False, False, True])), "noise": draw(st.sampled_from([0.0, 0.0, 1e-4, 1e-3, 1e-2])),
+            "noise_seed": draw(st.integers(0, 2 ** 20)), "unit": draw(st.sampled_from([1e-9, 1.0]))}
+    case.update(_st_transform(draw))
+    case["ops"] = [o for o in case["ops"] if o != "indent"]
+    return case
+
+
+def shape_array(case):
+    n = int(case["n"])
+    nb = max(12, int(case["baseline"] * n))
+    u = np.linspace(0.0, 1.0, max(n - nb, 8))
+    k = case["steep"]
+    rise = {"tanh": np.tanh(k * u), "sqrt": np.sqrt(u), "relax": 1 - np.exp(-k * u), "linear": u,
+            "power": u ** 1.5}[case["rise"]]
+    f = np.concatenate([np.zeros(nb), rise])
+    if case["retract"]:
+        f = np.concatenate([f, f[::-1][1:]])
+    if case["noise"]:
+        f = f + np.random.RandomState(int(case["noise_seed"])).normal(0, case["noise"], size=f.size)
+    return f * case["unit"]
+
+
+@st.composite
 def st_clean(draw):
     return {"kind": "clean", "curve": draw(st_curve(clean=True))}
 
@@ -274,7 +304,7 @@ def check_wellformed(case, ctx, force, make_idnt):
                 if good:
                     ctx.check(res[0] == idx, "details-index-differs", desc,
                               f"ret_details=True gives {res[0]}, plain call {idx}")
-        if "indent" in ops:
+        if "indent" in ops and make_idnt is not None:
             idnt = make_idnt()
             with ctx.no_raise("raises", dict(desc, call="Indentation")) as guard:
                 idx_i = idnt.estimate_contact_point_index(method=m)
@@ -337,6 +367,12 @@ def check_synth(case, ctx):
                 ctx.check(is_index(idx_i) and idx_i == idx_f, "dtype-changes-index", desc,
                           f"int64 counts give {idx_i!r}, the same values as float64 give {idx_f!r}")
         ctx.event("integer_counts")
+
+
+def check_shape(case, ctx):
+    ctx.note_case(case, nontrivial=True, classes=["shape", "rise_" + case["rise"],
+                                                  "with_retract" if case["retract"] else "approach_only"])
+    check_wellformed(case, ctx, shape_array(case), None)
 
 
 def check_recorded(case, ctx):
@@ -416,7 +452,7 @@ def check_degenerate(case, ctx):
                     break
 
 
-KINDS = {"synth": check_synth, "recorded": check_recorded, "clean": check_clean, "degenerate": check_degenerate}
+KINDS = {"shape": check_shape, "synth": check_synth, "recorded": check_recorded, "clean": check_clean, "degenerate": check_degenerate}
 
 
 def check_case(case, ctx):
@@ -435,6 +471,7 @@ def run(ctx):
         quick, thorough = (480, 19200) if shape == "explicit" else (180, 7200)
         ctx.hypothesis(st_degenerate(shape), check_case, ctx.scale(quick, thorough), label="degenerate-" + shape)
     ctx.hypothesis(st_clean(), check_case, ctx.scale(320, 12800), label="clean")
+    ctx.hypothesis(st_shape(), check_case, ctx.scale(160, 6400), label="shape")
     ctx.hypothesis(st_synth(), check_case, ctx.scale(240, 7200), label="synth")
     if ctx.tier == "quick":
         # every well-formed recorded curve once; transformations derived from the run seed
